@@ -193,7 +193,7 @@ func signingInfoWrittenLast(r *Run, rule string) {
 		if !ok || in.Block() == c.Block() && !Precedes(c, in) {
 			return false
 		}
-		return strings.HasPrefix(P.TermAt(st.Addr, st).String(), "&addr:signInfo.")
+		return strings.HasPrefix(P.TermAt(st.Addr, st).String(), "&addr:x/pos/types.ValidatorSigningInfo.")
 	}, nil, nil)
 	r.Check(!reach, rule, "handleValidatorSignature/written-after-last-update", P.InstrPos(c), "no later update", "signInfo is updated at "+P.InstrPos(w)+" after it was written back: the update is never stored")
 }
